@@ -50,7 +50,7 @@ def main() -> None:
         "the whole baseline suite).  `tools/seeded_run.py` re-runs the checks against all of them",
         "(`--in-place` does literally `git -C /repo apply` / `git -C /repo checkout -- .`).",
         "",
-        "Directories `Cxx` are round 1, `Cxx-b` round 2, `Cxx-c` round 3, `Cxx-d` round 4, `Cxx-e` round 5, `Cxx-f` round 6; `-e2` / `-f2` are changes written for another property and filed under the one they break (from round 2 on the authors",
+        "Directories `Cxx` are round 1, `Cxx-b` round 2, `Cxx-c` round 3, `Cxx-d` round 4, `Cxx-e` round 5, `Cxx-f` round 6; round 7 (six properties, \"round\": 7 in meta.json) took the next free suffix - `C04-e`, `C12-f`, `C14-g`, `C16-g`, `C17-g`, `C19-g`; `-e2` / `-f2` are changes written for another property and filed under the one they break (from round 2 on the authors",
         "were told which mechanisms the earlier rounds had used and asked for a different one).",
         "",
         "| id | property | needs to manifest | first run | now (quick) | clause that fires | also caught by |",
